@@ -1,6 +1,7 @@
 fn main() {
     println!("cargo:rustc-check-cfg=cfg(fuzzing)");
     println!("cargo:rustc-check-cfg=cfg(redb_no_std)");
+    println!("cargo:rustc-check-cfg=cfg(redb_verif)");
 
     // Building without the standard library is only offered under the redb 5 API preview. Cargo
     // features cannot express "experimental-api-5 and not std", so it is computed here and used as
